@@ -10,6 +10,12 @@
 //	wake-*  bounded progress of the blocking Get with consumers parked before the first put;
 //	timed-* GetTimeout returns empty-handed only after its timeout (− 1 ms clock truncation).
 //
+// Nothing in here waits without a bound (adapter.go: guardCall, waitProgress, runawayPanic):
+// a library call that does not return costs one case (conclusive where the stuck state is
+// unambiguous without a clock, inconclusive otherwise), its goroutine is abandoned, and the
+// section that hit it gives up its remaining cases (counted as abandoned_cases*), so that the
+// child always ends well inside the driver's watchdog. The sequential sections run first.
+//
 // The race flavour runs the same concurrent workloads (smaller) under the race detector; the
 // driver turns its reports into race:<frame>|<frame> keys.
 package main
